@@ -636,7 +636,7 @@ func c12interesting(n *c12node) bool {
 // ---- big replies: element counts and payload lengths around the decoder's preallocation bound (and far beyond)
 
 type c12big struct {
-	Typ    byte `json:"typ"` // $ = ! blob kinds (N bytes); * ~ > aggregates (N elements); % map (N pairs)
+	Typ    byte `json:"typ"` // $ = ! blob kinds (N bytes); S = streamed string ($?) with one chunk of N bytes and one of 3; * ~ > aggregates (N elements); % map (N pairs)
 	N      int  `json:"n"`
 	Nested bool `json:"nested"` // placed between two siblings inside an array
 	Buf    int  `json:"buf"`
@@ -677,6 +677,10 @@ func c12bigRun(r *vrun.Run, b c12big) {
 	}
 	elems := b.N
 	switch b.Typ {
+	case 'S':
+		fmt.Fprintf(&w, "$?\r\n;%d\r\n", b.N)
+		w.Write(c12bigPayload(b.N))
+		w.WriteString("\r\n;3\r\nend\r\n;0\r\n")
 	case '$', '=', '!':
 		fmt.Fprintf(&w, "%c%d\r\n", b.Typ, b.N)
 		w.Write(c12bigPayload(b.N))
@@ -729,6 +733,11 @@ func c12bigRun(r *vrun.Run, b c12big) {
 	}
 	bad := ""
 	switch b.Typ {
+	case 'S':
+		want := append(c12bigPayload(b.N), "end"...)
+		if root.typ != '$' || !bytes.Equal([]byte(root.string()), want) {
+			bad = fmt.Sprintf("streamed string of %d+3 bytes differs (got %d bytes, type %q)", b.N, len(root.string()), root.typ)
+		}
 	case '$', '=', '!':
 		if root.typ != b.Typ || !bytes.Equal([]byte(root.string()), c12bigPayload(b.N)) {
 			bad = fmt.Sprintf("payload of %d bytes differs (got %d bytes, type %q)", b.N, len(root.string()), root.typ)
@@ -784,7 +793,7 @@ func TestVerif_C12(t *testing.T) {
 		r.Bounds["max_nodes"] = maxNodes
 		r.Bounds["pair_split_max_len"] = pairMax
 		r.Bounds["bufio_sizes"] = []int{16, 32, 4096}
-		r.Rule = "every RESP value tree with <= max_nodes nodes (attribute frame = 1 node) over types + - : $ _ # , ( ! = * ~ % > with RESP2 nulls, streamed strings (every 2-way chunking) and streamed aggregates; single-node replies use the full payload alphabet ('', a, OK, OKx, CRLF, a CRLF b, binary, 40 bytes, frame look-alikes), children a reduced one (thorough: a second pass with a larger child alphabet up to max_nodes-1 nodes); each encoding (own encoder) + '+NEXT' is decoded by the real readNextMessage through bufio readers of 16/32/4096 bytes with the stream cut at every single position, one byte per read, and (thorough, encodings <= 24 bytes) at every pair of positions; streamTo on every scalar/aggregate single-node reply with 0-2 push frames in front, both writer kinds, and a writer that fails after k bytes for every k (a stream reported clean must leave the reader at the next frame). plus big replies: arrays, sets, pushes, maps with element counts and blob kinds with payload lengths around the decoder's preallocation bound (maxPrealloc) and far beyond, alone and nested, all at once or 1000 bytes per read. non-trivial = tree with aggregate, attribute, streamed form, CRLF in payload or payload > 16 bytes"
+		r.Rule = "every RESP value tree with <= max_nodes nodes (attribute frame = 1 node) over types + - : $ _ # , ( ! = * ~ % > with RESP2 nulls, streamed strings (every 2-way chunking) and streamed aggregates; single-node replies use the full payload alphabet ('', a, OK, OKx, CRLF, a CRLF b, binary, 40 bytes, frame look-alikes), children a reduced one (thorough: a second pass with a larger child alphabet up to max_nodes-1 nodes); each encoding (own encoder) + '+NEXT' is decoded by the real readNextMessage through bufio readers of 16/32/4096 bytes with the stream cut at every single position, one byte per read, and (thorough, encodings <= 24 bytes) at every pair of positions; streamTo on every scalar/aggregate single-node reply with 0-2 push frames in front, both writer kinds, and a writer that fails after k bytes for every k (a stream reported clean must leave the reader at the next frame). plus big replies: arrays, sets, pushes, maps with element counts and blob kinds (incl. a chunk of a streamed string) with payload lengths around the decoder's preallocation bound (maxPrealloc) and far beyond, alone and nested, all at once or 1000 bytes per read. non-trivial = tree with aggregate, attribute, streamed form, CRLF in payload or payload > 16 bytes"
 		r.Assume("bufio.Reader size >= 32 as enforced by rueidis.go (ReadBufferEachConn < 32 -> default); the 16 byte reader is only used when every number line of the encoding fits into 16 bytes")
 		r.Assume("streamTo on a reply preceded by an attribute frame: only frame consumption is checked (weak reading: the streaming sentence of the property speaks of string/integer/float replies; Redis sends no attributes today); observed behaviour is recorded as an outcome")
 		r.Assume("booleans through streamTo: the property names string, integer and float replies only, so only exact frame consumption is checked for '#'")
@@ -803,7 +812,7 @@ func TestVerif_C12(t *testing.T) {
 						}
 					}
 					for _, n := range []int{pb - 1, pb, pb + 1, pb + 2, 2*pb + 3, 300000} {
-						for _, t := range []byte{'$', '=', '!'} {
+						for _, t := range []byte{'$', '=', '!', 'S'} {
 							for _, buf := range []int{4096, 1 << 19} {
 								bigs = append(bigs, c12big{Typ: t, N: n, Nested: nested, Buf: buf, Chunk: ch})
 							}
